@@ -469,7 +469,7 @@ struct Session {
     if (kw == "move") {
       int cell;
       long long x, y;
-      if (!(is >> cell >> x >> y) || cell < 0 || cell >= c.nbCells() || std::llabs(x) > 100000000 || std::llabs(y) > 100000000) return false;
+      if (!(is >> cell >> x >> y) || cell < 0 || cell >= c.nbCells() || std::llabs(x) > 2000000000 || std::llabs(y) > 2000000000) return false;
       record(op);
       c.cellX_[cell] = x;
       c.cellY_[cell] = y;
@@ -496,6 +496,48 @@ struct Session {
         if (!s.isX && !sy) sy = &s;
       }
       if (sx && sy && sx->m->value() + sy->m->value() != lib) fail("x model value + y model value != Circuit::hpwl()");
+      return true;
+    }
+    if (kw == "hpwlc") {
+      // Would the int / long long arithmetic of Circuit::hpwl() overflow?  Predicted here in 64 bits from the
+      // geometric pin locations; the real function is only called when the prediction says it is safe, and then
+      // runs under UBSan (an overflow the prediction missed aborts the case and is reported).
+      record(op);
+      bool safe = true;
+      auto fits = [](long long v) { return v >= INT_MIN && v <= INT_MAX; };
+      for (size_t n = 0; n + 1 < c.netLimits_.size() && safe; ++n) {
+        int b = c.netLimits_[n], e = c.netLimits_[n + 1];
+        if (e <= b) continue;
+        long long x0 = LLONG_MAX, x1 = LLONG_MIN, y0 = LLONG_MAX, y1 = LLONG_MIN;
+        for (int f = b; f < e; ++f) {
+          geo::Pt o = oraclePinOffset(c, f);
+          long long x = (long long)c.cellX_[c.pinCells_[f]] + o.x, y = (long long)c.cellY_[c.pinCells_[f]] + o.y;
+          if (!fits(o.x) || !fits(o.y) || !fits(x) || !fits(y)) safe = false;
+          x0 = std::min(x0, x); x1 = std::max(x1, x); y0 = std::min(y0, y); y1 = std::max(y1, y);
+        }
+        if (!fits(x1 - x0) || !fits(y1 - y0)) safe = false;
+      }
+      out.evaluations++;
+      if (!safe) { out.impl << "hpwlc fault\n"; out.count("hpwlc_predicted_fault"); return true; }
+      long long lib = c.hpwl();
+      out.impl << "hpwlc ok " << lib << "\n";
+      out.count("hpwlc_ok");
+      auto o = oracleHpwl(c);
+      if (o.first + o.second >= (1LL << 31)) out.count("hpwlc_ok_total_above_2^31");
+      for (size_t n = 0; n + 1 < c.netLimits_.size(); ++n) {
+        int b = c.netLimits_[n], e = c.netLimits_[n + 1];
+        if (e <= b) continue;
+        long long x0 = LLONG_MAX, x1 = LLONG_MIN, y0 = LLONG_MAX, y1 = LLONG_MIN;
+        for (int f = b; f < e; ++f) {
+          geo::Pt q = oraclePinOffset(c, f);
+          long long x = (long long)c.cellX_[c.pinCells_[f]] + q.x, y = (long long)c.cellY_[c.pinCells_[f]] + q.y;
+          x0 = std::min(x0, x); x1 = std::max(x1, x); y0 = std::min(y0, y); y1 = std::max(y1, y);
+        }
+        if ((x1 - x0) + (y1 - y0) >= (1LL << 31)) { out.count("hpwlc_ok_net_half_perimeter_above_2^31"); sawSpan = true; updChanged = true; break; }
+      }
+      if (o.first + o.second > 0) sawSpan = true;
+      if (lib != o.first + o.second)
+        fail("Circuit::hpwl() = " + std::to_string(lib) + " but the bounding boxes of the geometric pin locations sum to " + std::to_string(o.first + o.second) + " (large coordinates, no int operation of the documented expression overflows)");
       return true;
     }
     if (kw == "offs" || kw == "goffs") {
@@ -963,6 +1005,53 @@ static void gridCase(Session &s, vh::Out &out, const std::string &id, int w, int
   finishCase(s, out);
 }
 
+// cells spread over the whole int range that Circuit::hpwl() can handle (pins within +-10^9, so that every net
+// extent fits an int while extent sums do not), and beyond it (where the checked model must predict the overflow)
+static void hugeCase(Session &s, vh::Rng &g, vh::Out &out, const std::string &id) {
+  int n = g.range(2, 6);
+  Circuit c(n);
+  std::vector<int> w(n), h(n), x(n), y(n);
+  std::vector<CellOrientation> orr(n);
+  bool beyond = g.chance(1, 5);  // some coordinates outside the safe box
+  long long R = beyond ? 2000000000LL : 800000000LL;
+  long long SZ = g.chance(1, 3) ? 100000000LL : 5000;
+  for (int i = 0; i < n; ++i) {
+    w[i] = g.range(0, SZ); h[i] = g.range(0, SZ);
+    int m = g.range(0, 3);
+    if (m == 0) { x[i] = g.range(-R, R); y[i] = g.range(-R, R); }
+    else if (m == 1) { x[i] = g.chance(1, 2) ? R : -R; y[i] = g.chance(1, 2) ? R : -R; }   // corners: diagonal nets
+    else if (m == 2) { x[i] = g.range(-R, R); y[i] = g.chance(1, 2) ? R : -R; }
+    else { x[i] = g.range(-1000, 1000); y[i] = g.range(-1000, 1000); }
+    orr[i] = (CellOrientation)g.range(0, 7);
+  }
+  c.setCellWidth(w); c.setCellHeight(h); c.setCellX(x); c.setCellY(y); c.setCellOrientation(orr);
+  int nets = g.range(1, 5);
+  for (int k = 0; k < nets; ++k) {
+    int d = g.range(1, 4);
+    std::vector<int> pc, px, py;
+    for (int j = 0; j < d; ++j) {
+      int cell = g.range(0, n - 1);
+      long long O = g.chance(1, 4) ? SZ : 50;
+      pc.push_back(cell); px.push_back(g.range(-O, O)); py.push_back(g.range(-O, O));
+    }
+    c.addNet(pc, px, py);
+  }
+  s.begin(id, c);
+  measureCircuit(c, out);
+  s.exec("hpwlc");
+  int moves = g.range(0, 6);
+  for (int u = 0; u < moves; ++u) {
+    int cell = g.range(0, n - 1);
+    long long nx = g.chance(1, 2) ? (g.chance(1, 2) ? R : -R) : g.range(-R, R);
+    long long ny = g.chance(1, 2) ? (g.chance(1, 2) ? R : -R) : g.range(-R, R);
+    s.exec(S("move", cell, nx, ny));
+    if (g.chance(1, 3)) s.exec(S("orient", cell, g.range(0, 7)));
+    s.exec("hpwlc");
+  }
+  out.count(beyond ? "huge_cases_beyond_box" : "huge_cases_in_box");
+  finishCase(s, out);
+}
+
 int main(int argc, char **argv) {
   vh::Args a = vh::parseArgs(argc, argv);
   vh::Out out(a.out);
@@ -974,7 +1063,11 @@ int main(int argc, char **argv) {
              "each in-sync model at an hpwl line); non-trivial = some net spans >= 2 distinct pin positions and at least one update "
              "changed a model's value(); distinct by hash of circuit text + op history.  Cases d<k>: vc::genCircuit circuit + extra nets, legalized, "
              "then the real DetailedPlacer constructed and run (random detailed parameters); value() observed at construction, at up to 60 "
-             "primitive moves (hook H3), at every callback and at the end; non-trivial = value() changed during the run";
+             "primitive moves (hook H3), at every callback and at the end; non-trivial = value() changed during the run.  Cases h<k>: 2-6 cells "
+             "spread over +-8*10^8 (one in five: +-2*10^9, beyond what int arithmetic can hold), sizes/offsets up to 10^8, all orientations, "
+             "moves to the corners; op hpwlc: whether Circuit::hpwl() can be evaluated without int overflow is predicted in 64 bits and by the "
+             "checked Lean twin (must agree), and where it can the real function runs under UBSan and must equal the geometric value; "
+             "non-trivial = some net has width + height >= 2^31 with each side below 2^31";
   out.notes.push_back("Circuit::addNet silently drops a net with 0 pins (measured: addNet_empty_dropped); empty nets are created through Circuit::setNets");
   Session s(out);
   Tier t;
@@ -1045,6 +1138,13 @@ int main(int argc, char **argv) {
     randomOps(s, g, out, t);
     finishCase(s, out);
     out.count("cases");
+  }
+  // ---- large coordinates: the int / long long arithmetic of Circuit::hpwl() against the checked model
+  long long hcases = a.thorough() ? 4000 : (a.search() ? 4000 : 400);
+  for (long long k = 0; k < hcases; ++k) {
+    if (a.only >= 0) break;
+    vh::Rng g = vh::Rng::forCase(a.seed, 7000000 + k);
+    hugeCase(s, g, out, "h" + std::to_string(k));
   }
   // ---- the real optimiser object (header, (e))
   long long dcases = a.thorough() ? 3000 : (a.search() ? 1500 : 300);
